@@ -32,7 +32,7 @@ STYLE_NAMES = {'BODY_STYLE_WRAPPED': 'BWrapped', 'BODY_STYLE_EMPTY': 'BEmpty', '
 G_DSTYLE = {'wrapped': 'DWrapped', 'bare': 'DBare', 'out_bare': 'DOutBare'}
 
 THEOREMS = ['C18_decorate_shapes', 'C18_null_eq_wire_partial', 'C18_null_eq_wire_soap',
-            'C18_null_eq_wire_xml_when_first', 'C18_hier_bare_request_refuted', 'C18_kw_eq_pos', 'C18_ignored',
+            'C18_null_eq_wire_xml_when_first', 'C18_hier_bare_request_refuted', 'C18_null_eq_wire_hier_when_sub_name', 'C18_kw_eq_pos', 'C18_ignored',
             'C18_ostr_is_the_wire_response', 'C18_unknown_method', 'C18_null_too_many_args',
             'C18_own_type_info_refuted', 'C18_ignored_empty_tuple_refuted']
 
@@ -887,7 +887,7 @@ def known_region(proto, dc, gen_state):
     """the two regions where the pinned WIRE side cannot carry the call (known findings)"""
     if proto == 'xml' and body_style(dc) != 'wrapped' and gen_state['xml_nonwrapped'] == 'NWList':
         return 'C18|wire-response|xml|non-wrapped-body-style'
-    if proto == 'json' and dc['style'] == 'bare' and dc['params']:
+    if proto == 'json' and dc['style'] == 'bare' and dc['params'] and gen_state['hier_bare_lookup'] == 'LkTypeName':
         return 'C18|wire-request|json|bare-argument'
     return None
 
@@ -899,7 +899,7 @@ def app_events(log):
 def gen_state():
     txt = open(os.path.join(lib.COQ, 'Gen', 'NullSrv.v')).read()
     st = {}
-    for k in ('xml_nonwrapped', 'soap_nonwrapped', 'null_ti_source'):
+    for k in ('xml_nonwrapped', 'soap_nonwrapped', 'null_ti_source', 'hier_bare_lookup'):
         m = re.search(r'Definition %s : \w+ := (\w+)\.' % k, txt)
         st[k] = m.group(1) if m else None
     return st
